@@ -64,7 +64,7 @@ def run(tier, rep):
     rep.assumptions += ["TLC 1.8", "watchdog 20 s per case (inputs take milliseconds)"]
     bundle = de.real_bundle()
     de.mc_mini(rep, 10 if quick else 12, liveness=True)
-    fe.mc(rep, "bytes", 8 if quick else 11, maxpay=1, optset="OptAll", bundle=bundle, liveness=True)
+    fe.mc(rep, "bytes", 8 if quick else 18, maxpay=1, optset="OptAll", bundle=bundle, liveness=True)
 
     # user-registered (mini) definitions, incl. malformed ones, through the real interpreter
     recs, mv = de.judge_minis(rep, 8 if quick else 12)
@@ -140,7 +140,7 @@ def run(tier, rep):
     for pl in list(spool[:40]):
         if len(pl) > 4:
             spool.append(pl[: rnd.randrange(2, len(pl))])
-    n = 30 if quick else 300
+    n = 40 if quick else 600
     for i in range(n):
         data, items = gen_streams.mixed_stream(rnd, spool, rnd.randint(3, 12), well_formed=False, dmg=0.3)
         if i % 5 == 0:
